@@ -191,6 +191,7 @@ type broker struct {
 	maxProduce int16       // > 0: the highest Produce version ApiVersions offers (2 = a 0.10.x broker: message sets)
 	maxFetch   int16       // > 0: the highest Fetch version offered (2: message-set responses; 5; 10)
 	maxMeta    int16       // > 0: the highest Metadata version offered (1; 6)
+	maxJoin    int16       // > 0: the highest JoinGroup version offered (1; 2: response with a throttle time)
 }
 
 // groupCoord is a small multi-member group coordinator (scaffolding): a JoinGroup or LeaveGroup starts a
@@ -421,6 +422,10 @@ func (b *broker) serve(c net.Conn) {
 			if b.maxMeta > 0 {
 				maxMeta = b.maxMeta
 			}
+			maxJoin := int16(1)
+			if b.maxJoin > 0 {
+				maxJoin = b.maxJoin
+			}
 			resp = &apiversions.Response{ApiKeys: []apiversions.ApiKeyResponse{
 				{ApiKey: int16(protocol.Produce), MinVersion: 0, MaxVersion: maxProduce},
 				{ApiKey: int16(protocol.Fetch), MinVersion: 0, MaxVersion: maxFetch},
@@ -430,7 +435,7 @@ func (b *broker) serve(c net.Conn) {
 				{ApiKey: int16(protocol.OffsetCommit), MinVersion: 0, MaxVersion: 2},
 				{ApiKey: int16(protocol.OffsetFetch), MinVersion: 0, MaxVersion: 1},
 				{ApiKey: int16(protocol.FindCoordinator), MinVersion: 0, MaxVersion: 0},
-				{ApiKey: int16(protocol.JoinGroup), MinVersion: 0, MaxVersion: 1},
+				{ApiKey: int16(protocol.JoinGroup), MinVersion: 0, MaxVersion: maxJoin},
 				{ApiKey: int16(protocol.Heartbeat), MinVersion: 0, MaxVersion: 0},
 				{ApiKey: int16(protocol.LeaveGroup), MinVersion: 0, MaxVersion: 0},
 				{ApiKey: int16(protocol.SyncGroup), MinVersion: 0, MaxVersion: 0},
@@ -1004,6 +1009,7 @@ func scenReaderGroup(rng *rand.Rand, rounds int) {
 	also("Reader.Stats", "Reader.Offset", "Reader.Lag", "Reader.SetOffset", "Reader.Config")
 	for i := 0; i < rounds; i++ {
 		b := newBroker("t", 2, 5+rng.Intn(5))
+		b.maxJoin, b.maxFetch, b.maxMeta = []int16{1, 2}[i%2], []int16{10, 5, 2}[(i/2)%3], []int16{6, 1}[(i/3)%2]
 		d := &kafka.Dialer{DialFunc: func(ctx context.Context, network, address string) (net.Conn, error) { return b.dial(), nil }}
 		commitEvery := time.Duration(rng.Intn(2)) * 5 * time.Millisecond
 		r := kafka.NewReader(kafka.ReaderConfig{Brokers: []string{"fake:9092"}, GroupID: "g", Topic: "t", Dialer: d, MinBytes: 1, MaxBytes: 1 << 20,
@@ -1050,6 +1056,7 @@ func scenReaderRebalance(rng *rand.Rand, rounds int) {
 	also("NewReader+Reader.FetchMessage", "Reader.FetchMessage", "Reader.Close")
 	for i := 0; i < rounds; i++ {
 		b := newBroker("t", 3, 4+rng.Intn(4))
+		b.maxJoin = []int16{2, 1}[i%2]
 		b.group = newGroupCoord()
 		d := &kafka.Dialer{DialFunc: func(ctx context.Context, network, address string) (net.Conn, error) { return b.dial(), nil }}
 		commitEvery := time.Duration(rng.Intn(2)) * 5 * time.Millisecond
